@@ -371,6 +371,10 @@ class Generator:
         it.canary_full = join(co)
         it.n_canaries = len(cpos)
         it.stub = '#[verifier::external_body]\n' + join(header) + '{ unimplemented!() }\n'
+        if 'fn' not in header:
+            # module-level `exec const X: T ensures .. { init }`: rustc const-evaluates the initialiser, so an
+            # `unimplemented!()` stub does not compile; other units get the (tiny) real item instead
+            it.stub = it.full
         gt = []
         for _, g in ghosts:
             gt += g
